@@ -60,7 +60,8 @@ ASSUMPTIONS = [
     "statements may share a line (`a = 1; from .m import x`); explicit imports also occur in class bodies; no "
     "TYPE_CHECKING guards, no conditional definitions, no external packages",
     "order and duplicates of __all__ are not compared (irrelevant to `import *`); a name used to splice another module's "
-    "__all__ (`x_all`, `mod`) is bound exactly once in the module, as in the documented forms",
+    "__all__ (`x_all`, `mod`, a module alias imported from another module) is bound exactly once in the module and "
+    "reaches the module through explicit imports only, as in the documented forms",
     "the simulated namespace in vp/gen/c05_pkg.py only decides which names the generator may mention, which names fall "
     "under the sub-module tolerance and how failures are bucketed; every verdict compares Griffe with CPython",
 ]
@@ -171,6 +172,14 @@ def check_case(case) -> list[Fail]:
         norm = lambda s: str(s).replace(top, "P")  # noqa: E731
         src_text = lambda: G.show(case, "P")  # noqa: E731
 
+        def module_names(cmodule):
+            """(names CPython binds in this module of the package, names not compared) or None for foreign modules."""
+            name = cmodule.__name__
+            mpath = "" if name == top else name[len(top) + 1 :]
+            if mpath not in cview or not (name == top or name.startswith(top + ".")):
+                return None
+            return set(cview[mpath]["names"]), G.tolerated_names(case, sim, mpath)
+
         for mod in case["mods"]:
             path = mod["path"]
             full = G.dotted(top, path)
@@ -269,7 +278,7 @@ def check_case(case) -> list[Fail]:
                             )
                         )
                 if gm.is_alias:
-                    fails += _alias_presents(gm, ft, cmod["raw"][n], norm, src_text)
+                    fails += _alias_presents(gm, ft, cmod["raw"][n], norm, src_text, module_names)
                 elif gm.is_class and isinstance(cmod["raw"][n], type) and cobj["paths"] == {f"{full}.{n}"}:
                     fails += _class_imports(gm, cmod["raw"][n], allmap_of(cview), norm, src_text, top)
             # ---- exports
@@ -341,7 +350,7 @@ _GRIFFE_KIND = {
 }
 
 
-def _alias_presents(alias, ft, cvalue, norm, src_text) -> list[Fail]:
+def _alias_presents(alias, ft, cvalue, norm, src_text, module_names=None) -> list[Fail]:
     """Clause `alias`: the alias shows what its final target shows (and what CPython shows for the same object)."""
     fails = []
     where = norm(alias.path)
@@ -383,6 +392,18 @@ def _alias_presents(alias, ft, cvalue, norm, src_text) -> list[Fail]:
                 for k2, sub2 in sub.members.items():
                     if sub2.path != f"{alias.path}.{k}.{k2}":
                         bad("member-path", f"nested member {k}.{k2} has path {norm(sub2.path)}, expected {where}.{k}.{k2}")
+        if ft.is_module and isinstance(cvalue, types.ModuleType) and module_names is not None:
+            # a module alias (`from . import impl as core`) presents what CPython's module object holds after the import
+            got = module_names(cvalue)
+            if got is not None:
+                cnames, tolerated = got
+                gnames = {k for k in am if "/" not in k}
+                diff = ((cnames - gnames) | (gnames - cnames)) - tolerated
+                if diff or any("/" in k for k in am):
+                    bad(
+                        "module-members-vs-cpython",
+                        f"alias.members={sorted(am)}, vars(module)={sorted(cnames)} (not compared: {sorted(tolerated)})",
+                    )
         if ft.is_class and isinstance(cvalue, type):
             cnames = {n for n in vars(cvalue) if n not in CLASS_DUNDERS}
             if set(am) != cnames:
